@@ -6,6 +6,18 @@ CHECKS = {
     "C01": ("P progcheck", "bounded-exhaustive enumeration of programs (compiled by the real macros through rustc) x all input databases, compared with a naive reference evaluator",
             "Families F-shape (every rule body of <= 2 clauses over unary/binary relations with every bound/free/repeated/constant/wildcard argument pattern, plus if / let / if-let / for items attached or separate, in a recursive context) and F-scc (all dependency skeletons of <= 3 rules over <= 3 derived relations up to renaming, multi-head rules); every program is run on all 4096 databases over {0,1} (F-scc: all databases with <= 4 facts) with facts in every relation, and every relation is compared with the least model computed by a naive evaluator.",
             "programs are a cut of the program space (families), domain size 2; reference evaluator and AST printer trusted", "6 C01"),
+    "C03": ("P progcheck", "bounded-exhaustive enumeration of lattice programs x all input databases on the compiled real macros, compared with a naive least-fixed-point evaluator",
+            "8 lattice column types (u32, Dual<u32>, bool, Option<u8>, Set<u8>, BoundedSet<2,u8>, ConstPropagation<u8>, (u8,u8)) x 7 program shapes (non-recursive, recursive through the lattice with the lattice clause first/second, ternary lattice with bound/free/wildcard key columns, two lattices feeding each other, all derivations on one key / keyless lattice, two rules improving one key + simple joins on a lattice); all inputs up to a per-program budget; every relation incl. the plain relations derived through upward-closed tests compared with the reference LFP; exactly one row per key.",
+            "monotone use only (monotone step functions, upward-closed tests, verified exhaustively by the vfn self-test); Product<..> has no Hash impl and cannot be a lattice column", "6 C03"),
+    "C04": ("P progcheck", "bounded-exhaustive enumeration of stratified aggregation / negation programs x all input databases on the compiled real macros, compared with a naive stratified evaluator",
+            "Aggregated / negated relation is an input, the output of a non-looping or a looping stratum, a lattice, an aggregate result (depth 2) or head of two strata; aggregators count sum min max mean percentile(50) not + a user aggregator returning 0-2 values; keyed / unkeyed / second-column-bound / constant-key argument patterns; every program in both textual rule orders; all inputs incl. facts in the aggregated relation.",
+            "domain {0,1}; multiplicity is observable through count / sum / mean", "6 C04"),
+    "C05": ("P progcheck (+ S vsched for the parallel part)", "bounded-exhaustive programs x inputs (incl. inputs with a duplicated fact) on the compiled real macros with row-multiplicity oracles on every run",
+            "Families F-scc, F-lat, F-shape: after every run the number of rows equals the number of distinct tuples plus exactly the surplus the caller put in, the input vector is an unmodified prefix of the result vector (lattice rows: same key, value only grows), one row per lattice key.",
+            "serial part only in this entry until the vsched part lands", "6 C05"),
+    "C13": ("P progcheck", "bounded-exhaustive enumeration of run / add-facts histories over compiled programs x initial inputs x added fact sets vs the reference fixpoint of the union of all inputs",
+            "Families F-scc, F-lat, F-agg: histories run;run and run;run;add S;run for every initial input of the budget and every single added fact (thorough: pairs and a second add;run), facts added to any relation incl. derived ones; idempotence for all programs, equality with a fresh run for programs without negation / aggregation.",
+            "added lattice rows use keys the relation does not hold yet; no caller-made duplicate facts", "6 C13"),
     "C16": ("H histcheck", "exhaustive enumeration (all pairs / triples over complete small carriers) on the real Lattice impls",
             "All 256 values of u8/i8 (pairs; triples in thorough), boundary carriers for wider integers, complete carriers for every shipped composite lattice incl. nestings; every law of the property is evaluated on every pair/triple of the real implementation.",
             "rustc/std trusted; wide integers only at boundary values", "6 C16"),
